@@ -97,6 +97,8 @@ func runC09(c *core.Ctx) {
 				built[tn] = append(built[tn], pr)
 			}
 		}
+		renderings := map[string]string{}
+		sharedProd := map[string]token.Pos{}
 		for _, typ := range []string{"ListType", "MapType", "TupleType", "StructType"} {
 			fd := funcDecl(p, typ, "Signature")
 			key := "meta/signature." + typ + ".Signature"
@@ -109,13 +111,19 @@ func runC09(c *core.Ctx) {
 				continue
 			}
 			want := built[typ][0].Atoms
+			must := built[typ][0].mandatory()
 			prodName := built[typ][0].Builder.Name()
 			// printer tokens: every format / literal of the function; each distinct print statement must be a
-			// (possibly partial) rendering of the production
+			// (possibly partial) rendering of the production: all of it, or all of it but optional parts
 			lits := stringLitsIn(info, fd.Body)
 			ok := true
 			why := ""
 			full := false
+			rendering := ""
+			isFull := func(g string) bool {
+				noComma := func(x string) string { return strings.ReplaceAll(x, ",", "") }
+				return noComma(g) == noComma(glue(want)) || noComma(g) == noComma(glue(must))
+			}
 			var acc []string // accumulated single-token literals ("(" … ")")
 			for _, l := range lits {
 				if !strings.Contains(l, "%") {
@@ -131,8 +139,11 @@ func runC09(c *core.Ctx) {
 					ok = false
 					why = fmt.Sprintf("the printer emits %q, the grammar production built by %s expects tokens %s", l, prodName, fmtSet(want))
 				}
-				if g == glue(want) {
+				if isFull(g) {
 					full = true
+					if len(g) > len(rendering) {
+						rendering = g
+					}
 				}
 			}
 			if len(acc) > 0 {
@@ -141,15 +152,28 @@ func runC09(c *core.Ctx) {
 					ok = false
 					why = fmt.Sprintf("the printer emits the tokens %s, the grammar production built by %s expects %s", fmtSet(acc), prodName, fmtSet(want))
 				}
-				if strings.ReplaceAll(g, ",", "") == strings.ReplaceAll(glue(want), ",", "") {
+				if isFull(g) {
 					full = true
+					if len(g) > len(rendering) {
+						rendering = g
+					}
 				}
 			}
 			if ok && !full {
 				ok = false
-				why = fmt.Sprintf("no print statement renders the whole production built by %s (%s)", prodName, fmtSet(want))
+				why = fmt.Sprintf("no print statement renders the whole production built by %s (%s, optional parts %s)", prodName, fmtSet(must), fmtSet(want))
 			}
+			renderings[typ] = strings.ReplaceAll(rendering, ",", "")
+			sharedProd[typ] = built[typ][0].Pos
 			c.Check(ok, "C09.tokens", key, fd.Pos(), "prints "+fmtSet(want), why)
+		}
+		// types built by one production (a sequence with an optional part) print differently
+		for _, a := range []string{"ListType", "MapType", "TupleType", "StructType"} {
+			for _, b := range []string{"ListType", "MapType", "TupleType", "StructType"} {
+				if a < b && sharedProd[a] != token.NoPos && sharedProd[a] == sharedProd[b] && renderings[a] == renderings[b] {
+					c.Fail("C09.tokens", "meta/signature."+a+"+"+b, sharedProd[a], a+" and "+b+" are built by one grammar production but print the same tokens: one of them does not parse back to itself")
+				}
+			}
 		}
 	}
 	// struct name patterns
@@ -205,6 +229,10 @@ func runC09(c *core.Ctx) {
 		}
 		c.Check(bad == "", "C09.tokens", "meta/signature.structName", sn.Pos(), "Name and Name<Arg> with the same identifier pattern", bad)
 	}
+
+	// ------------------------------------------------------------ Go representation and IDL name
+	c.Doc("C09.constructors", "each constructor's Go type, IDL name and reader agree with its signature letter; derived types use one signature string", 11)
+	ruleConstructorsAs(c, derivePrims(c), "C09.constructors")
 
 	// ------------------------------------------------------------ parse
 	c.Doc("C09.parse", "Parse: success only at end of input with exactly one type; no package state besides the grammar", 3)
